@@ -304,6 +304,8 @@ class Folder:
         if n.id in ("True", "False", "None"):
             return {"True": True, "False": False, "None": None}[n.id]
         f = self._ctx_func()
+        if f is not None and self.symbolic and (n.id in f.module.classes or n.id in f.module.funcs or n.id in f.module.imports):
+            return Opaque("callable", n.id)
         if f is not None and n.id in f.module.assigns and not self.symbolic:
             # a module-level constant (lookup table, literal): folded once, on its own
             key = (f.module.name, n.id)
@@ -572,7 +574,19 @@ class Folder:
                     sy = Sym(f"{label}.{f.attr}", args, kw)
                     self.trace.append(sy)
                     return sy
-            sy = Sym(" ".join(ast.unparse(f).split()), args, kw)
+            label = " ".join(ast.unparse(f).split())
+            if not isinstance(f, (ast.Name, ast.Attribute)):
+                try:
+                    fv = self.ev(f, env)
+                    if isinstance(fv, Opaque) and fv.tag == "callable":
+                        label = fv.label
+                except Refuse:
+                    pass
+            elif isinstance(f, ast.Name) and f.id in env and isinstance(env[f.id], Opaque) and env[f.id].tag == "callable":
+                label = env[f.id].label
+            elif isinstance(f, ast.Name) and f.id in env and isinstance(env[f.id], Sym):
+                label = repr(env[f.id])
+            sy = Sym(label, args, kw)
             self.trace.append(sy)
             return sy
         raise Refuse(f"call of {ast.unparse(f)}")
